@@ -179,6 +179,13 @@ def _decode(repo, rep):
             if isinstance(w, A.NodeV) and w.kind == "Interpolation" and \
                     "decode_htmlentities" in w.kwargs:
                 ok = False
+    vt = L.emission(repo, PROG + "visit_text").value
+    for w in A.walk(vt):
+        if isinstance(w, A.NodeV) and w.kind == "Interpolation" and \
+                "decode_htmlentities" in w.kwargs:
+            t = A.show(w.kwargs["decode_htmlentities"]).strip("`")
+            if t.replace(" ", "") not in ("bool(self.escape)", "self.escape"):
+                ok = False      # element text must decode whenever it escapes
     at = L.emission(repo, PROG + "_create_attributes_nodes").value
     for w in A.walk(at):
         if isinstance(w, A.NodeV) and w.kind == "Interpolation" and \
